@@ -233,6 +233,9 @@ def verify(spec: FuncSpec, cfg: dict, tier="quick", exclude=()) -> RunResult:
             break
         ctx = PathCtx(prefix, timeout_ms=timeout_ms, max_decisions=spec.max_decisions, end_scope=end_scope)
         sym.set_cur(ctx)
+        bt = getattr(spec, "branch_timeout_ms", None)
+        if bt is not None:
+            ctx.branch_timeout_ms = bt
         outcome = None
         try:
             interp = Interp(ctx)
